@@ -117,11 +117,13 @@ NUMBERS = ['0', '1', '-1', '0.0', '3.14', '1e5', '-0', '007', '12', '2']
 
 
 MULTIKEY_HEADERS = ['# ::id doc.1 ::date 2020-01-01 ::annotator z\n', '# ::id 7  ::snt The dog barks.   ::lang en\n', '#::a 1::b 2\n',
-                    '# ::tok a b c ::alignments 0-1 1-2 \t ::k\n# plain comment\n', '# ::snt x ::id\n']
+                    '# ::tok a b c ::alignments 0-1 1-2 \t ::k\n# plain comment\n', '# ::snt x ::id\n',
+                    # a field whose key is empty (the text after "::" starts with a blank)
+                    '# :: text without a key\n', '# ::id 3 :: note to self ::k\n']
 
 
 def rand_meta(rng):
-    keys = ['id', 'snt', 'tok', 'alignments', 'k', 'save-date', 'x.y', 'Ü']
+    keys = ['id', 'snt', 'tok', 'alignments', 'k', 'save-date', 'x.y', 'Ü', '']
     n = rng.choice([1, 1, 2, 3])
     meta = {}
     for k in rng.sample(keys, n):
